@@ -8,6 +8,7 @@ import (
 	"fmt"
 	"math/big"
 
+	"circlsim/codec"
 	"circlsim/core"
 	"circlsim/fixtures"
 
@@ -358,6 +359,32 @@ func csidhFam() famDef {
 				return ss[:]
 			},
 			"validate": func(a uint64) []byte { return b2(csidh.Validate(&peer, core.NewStream(seed+30+a))) },
+		}}
+	}}
+}
+
+// decodersFam: several callers decode the SAME byte buffer at once (a peer's static key, a
+// stored ciphertext), each into an object of its own. A decoder that scribbles on its input
+// and restores it before returning looks clean to a single caller and is not to two. One
+// registry entry (codecsim's decoding entry points, the cheap ones) per run, chosen by the seed.
+func decodersFam() famDef {
+	var cheap []string
+	for _, n := range codec.Names() {
+		if e := codec.Get(n); e.Cost <= 10 && e.Call != nil && e.Valid != nil {
+			cheap = append(cheap, n)
+		}
+	}
+	return famDef{name: "decoders", kinds: []string{"decode", "decode", "decode.b"}, build: func(seed uint64) *shared {
+		e := codec.Get(cheap[seed%uint64(len(cheap))])
+		in0 := append([]byte{}, codec.Valid(e, seed/7)...)
+		in1 := append([]byte{}, codec.Valid(e, seed/7+1)...)
+		res := func(r codec.Result) []byte {
+			return append(append(b2(r.Accepted), b2(r.Member)...), r.Reenc...)
+		}
+		name := []byte(e.Name)
+		return &shared{ops: map[string]func(uint64) []byte{
+			"decode":   func(uint64) []byte { return append(res(e.Call(in0)), name...) },
+			"decode.b": func(uint64) []byte { return append(res(e.Call(in1)), name...) },
 		}}
 	}}
 }
